@@ -447,6 +447,40 @@ def target_raised_faults(col, rng, n_exc):
                 judge_escape(col, e, got, kw, cell, 'fault raised by the target at %s' % name, 'target access ' + name)
 
 
+class _EqualToAll:
+    def __eq__(self, other): return True
+    def __ne__(self, other): return False
+    __hash__ = object.__hash__
+
+
+class _EqualToNone:
+    def __eq__(self, other): return False
+    def __ne__(self, other): return True
+    __hash__ = object.__hash__
+
+
+class _NoTruth:
+    def __bool__(self): raise ValueError('the truth value of a comparison result is ambiguous')
+
+
+class _ElementwiseEq:
+    """like an array: == answers with an object that has no truth value"""
+    def __eq__(self, other): return _NoTruth()
+    def __ne__(self, other): return _NoTruth()
+    __hash__ = object.__hash__
+
+
+class _Falsy:
+    def __bool__(self): return False
+    def __len__(self): return 0
+
+
+class _RaisingEq:
+    def __eq__(self, other): raise RuntimeError('not comparable')
+    def __ne__(self, other): raise RuntimeError('not comparable')
+    __hash__ = object.__hash__
+
+
 def default_object_is_returned_itself(col):
     """"replaced by the default object itself": whatever the default is - a container, a T expression, a Spec - it is not
     interpreted, copied or evaluated; through glom(), Glommer.glom and Spec.glom"""
@@ -454,7 +488,11 @@ def default_object_is_returned_itself(col):
     g = Glommer()
     defaults = [('list', lambda: ['d', T['x']]), ('dict', lambda: {'k': T}), ('tuple', lambda: (T, 1)), ('set', lambda: {1, 2}),
                 ('empty-list', lambda: []), ('T', lambda: T['nope']['deeper']), ('bare-T', lambda: T), ('Val', lambda: Val(3)),
-                ('Spec', lambda: Spec('a.b')), ('callable', lambda: len), ('string', lambda: 'a.b')]
+                ('Spec', lambda: Spec('a.b')), ('callable', lambda: len), ('string', lambda: 'a.b'),
+                # objects with an unusual notion of equality / truth: the default is handed back, never compared or tested
+                ('equal-to-everything', lambda: _EqualToAll()), ('equal-to-nothing', lambda: _EqualToNone()),
+                ('comparison-without-truth-value', lambda: _ElementwiseEq()), ('falsy-object', lambda: _Falsy()),
+                ('raising-eq', lambda: _RaisingEq())]
     entries = [('glom', lambda t, s, **kw: G(t, s, **kw)), ('Glommer.glom', lambda t, s, **kw: g.glom(t, s, **kw)),
                ('Spec.glom', lambda t, s, **kw: Spec(s).glom(t, **kw))]
     for dname, mk in defaults:
